@@ -32,8 +32,8 @@ man = {
         'guard': 'SKFEM_VERIF',
         'enable': 'none needed: no source hooks; checks import /repo (editable install in /venv) and '
                   'take control through public seams (module-level Thread name, user callbacks, plain attributes)',
-        'baseline_off_cmd': 'cd /repo && /venv/bin/python -m pytest -ra -q -p no:cacheprovider --timeout=900 '
-                            '--continue-on-collection-errors',
+        'baseline_off_cmd': 'cd /repo && env -u SKFEM_VERIF /venv/bin/python -m pytest -ra -q -p no:cacheprovider --timeout=900 '
+                            '--continue-on-collection-errors --junitxml=/dev/shm/skfem_baseline_off.junit.xml',
         'source_commits': [],
         'add_only': True,
     },
